@@ -26,7 +26,7 @@ LINE = {
     'comment': '# c', 'blank': '',
     'i': 'i x', 'i-ind': '  i y',
     'm': 'm <<EOF', 'eof': 'EOF',
-    'di': '`d` i z', 'd': '`d`', 'dopen': '`d1', 'dclose': 'd2` i w',
+    'di': '` d ` i z', 'd': '`d`', 'dopen': '` d1', 'dclose': 'd2 ` i w',
     'src': 'act-src', 'esc': '\\[x]', 'esc-ind': ' \\\\y',
     'inc-noarg': 'including', 'inc-2args': 'including f1.xly x',
     'inc:f1': 'including f1.xly', 'inc:f2': 'including sub/f2.xly', 'inc:main': 'including main.case',
